@@ -115,6 +115,8 @@ CHECKS = {
              ]},
             {"pkg": "./server", "overlay": "server", "pkgname": "server",
              "harnesses": [
+                 {"name": "VerifC16ApiCarries", "replay": "interpreted", "covers": ["done", "unary", "async"],
+                  "targets": ["apiServer).Publish", "publishAsyncSession).publishLoop", "apiServer).publish"]},
                  {"name": "VerifC16FlagTravels", "replay": "interpreted", "max-paths": 1000000,
                   "covers": ["done", "occ-stream", "pause-resume", "restored-from-snapshot", "refused", "stored"],
                   "targets": ["Server).newPartition", "StreamsConfig).ApplyOverrides", "Server).Snapshot", "Server).Restore", "commitLog).Append"]},
